@@ -5,6 +5,8 @@ import TapkeeVerif.Proofs.EckartYoung
 import TapkeeVerif.Proofs.Inertia
 import TapkeeVerif.Proofs.DijkstraLoop
 import TapkeeVerif.Proofs.DijkstraMain
+import TapkeeVerif.Proofs.DijkstraTerm
+import TapkeeVerif.Proofs.RankBridge
 /-!
 # C05 — MDS and Kernel PCA return the optimal rank-`d` factor of the centred Gram matrix
 
@@ -133,6 +135,32 @@ theorem isomap_full_k_eq_mds {P : Dijkstra.Problem K} {k : Nat} (hw : ∀ a b, 0
   · rfl
   · exact hsym _ _
 
+/-- the hypotheses of `isomap_full_k_eq_mds` are satisfiable whenever the lists are well formed: C04's termination
+    theorem (`row_ok`) supplies the rows, and on a complete neighbour relation every geodesic is finite -/
+theorem isomap_full_k_rows_exist {P : Dijkstra.Problem K} {k : Nat} (hwf : Dijkstra.WF P k) (hw : ∀ a b, 0 ≤ P.w a b)
+    (hfull : ∀ s v, s < P.N → v < P.N → s ≠ v → Dijkstra.Edge P k s v)
+    (disc : Dijkstra.Disc) (ch : Nat → Nat → Nat) :
+    ∃ (r : Fin P.N → Vector (Option K) P.N) (G : Mat P.N P.N K),
+      (∀ s : Fin P.N, Dijkstra.row P disc k (ch s.1) s.1 s.1 = .ok (r s)) ∧
+      ∀ i j : Fin P.N, (r i)[j.1] = some (G i j) := by
+  classical
+  have hex : ∀ s : Fin P.N, ∃ r, Dijkstra.row P disc k (ch s.1) s.1 s.1 = .ok r :=
+    fun s => Dijkstra.row_ok (ch s.1) hwf hw (Or.inr rfl) s.2 s.2
+  choose r hr using hex
+  refine ⟨r, fun i j => ((r i)[j.1]).getD 0, hr, fun i j => ?_⟩
+  have hgeo := Dijkstra.row_geodesic hw (Or.inr rfl) (hr i) j.1 j.2
+  have hsome : ∃ d, (r i)[j.1] = some d := by
+    by_cases hij : i.1 = j.1
+    · have hij' : i = j := Fin.ext hij
+      subst hij'
+      exact ⟨0, Dijkstra.IsGeodesic.diag_zero hw i.2 hgeo⟩
+    · obtain ⟨d', hd', -⟩ := Dijkstra.IsGeodesic.le_edge (hfull i.1 j.1 i.2 j.2 hij) hgeo
+      exact ⟨d', hd'⟩
+  obtain ⟨d', hd'⟩ := hsome
+  show (r i)[j.1] = some (((r i)[j.1]).getD 0)
+  rw [hd']
+  rfl
+
 /-- **the randomized solver is exact on inputs of rank ≤ d.**  Model of `eigendecomposition_impl_randomized`:
     `Q` = the orthonormalised range sample `orth(A'·Ω)` (`QᵀQ = 1`), where `A' = upperView A` is what
     `DenseMatrixOperation` reads (only the upper triangle of the argument — always a symmetric matrix); `(W, lam)` = a full
@@ -184,12 +212,10 @@ theorem rowSqDist_eq_gram (Y : Mat N d K) (i j : Fin N) :
     ← Finset.sum_add_distrib, ← Finset.sum_sub_distrib]
   exact Finset.sum_congr rfl fun a _ => by ring
 
-/-- **Exact recovery.**  Distances Euclidean (`δ i j ² = ‖x_i − x_j‖²`), `(V, lam)` an eigensystem of the matrix handed to
-    the solver whose eigenvectors span the range of that matrix (`hrank`: everything orthogonal to the returned
-    eigenvectors is in its kernel — this is how "the centred points span at most `d` dimensions and the solver returned
-    the leading ones" enters; it follows from `rank Xc ≤ d` and `IsTopEig`), `s` the clamped square roots: every
-    pairwise squared distance of the embedding equals the squared input distance, **exactly**. -/
-theorem mds_exact_recovery (X : Mat N D K) (δ : Fin N → Fin N → K)
+/-- Exact recovery, kernel form (the hypothesis `hrank` speaks about the solver's answer: everything orthogonal to the
+    returned eigenvectors is in the kernel of the matrix; `mds_exact_recovery` below derives it from the DATA-side
+    hypothesis `rank Xc ≤ d` through `Spectral.kernel_of_rank_le`). -/
+theorem mds_exact_recovery_of_hrank (X : Mat N D K) (δ : Fin N → Fin N → K)
     (hδ : ∀ i j, δ i j * δ i j = ∑ a, (X i a - X j a) * (X i a - X j a))
     (V : Mat N d K) (lam s : Vec d K) (h : IsEigSystem (Mat.toM (mdsPre δ)) (Mat.toM V) lam)
     (hrank : ∀ x : Fin N → K, (Mat.toM V)ᵀ *ᵥ x = 0 → Mat.toM (mdsPre δ) *ᵥ x = 0)
@@ -227,6 +253,22 @@ theorem mds_exact_recovery (X : Mat N D K) (δ : Fin N → Fin N → K)
   simp only [Matrix.mul_apply, transpose_apply, hXc, Mat.toM_apply, centred, Finset.mul_sum,
     ← Finset.sum_add_distrib, ← Finset.sum_sub_distrib]
   exact Finset.sum_congr rfl fun a _ => by ring
+
+/-- **Exact recovery.**  Distances Euclidean (`δ i j ² = ‖x_i − x_j‖²`), the centred points span at most `d` dimensions
+    (`rank Xc ≤ d` — a hypothesis on the DATA only), `(V, lam)` a top-`d` eigensystem of the matrix handed to the solver
+    (the solver's contract), `s` the clamped square roots: every pairwise squared distance of the embedding equals the
+    squared input distance, **exactly**. -/
+theorem mds_exact_recovery (X : Mat N D K) (δ : Fin N → Fin N → K)
+    (hδ : ∀ i j, δ i j * δ i j = ∑ a, (X i a - X j a) * (X i a - X j a))
+    (hrk : (Mat.toM (centred X)).rank ≤ d)
+    (V : Mat N d K) (lam s : Vec d K) (h : IsTopEig (Mat.toM (mdsPre δ)) (Mat.toM V) lam)
+    (hs : ∀ j, s j * s j = clamp0 (lam j)) :
+    ∀ i j, rowSqDist (post V s) i j = δ i j * δ i j := by
+  have hBG := mdsPre_eq_gram X δ hδ
+  have hrank : ∀ x : Fin N → K, (Mat.toM V)ᵀ *ᵥ x = 0 → Mat.toM (mdsPre δ) *ᵥ x = 0 := by
+    rw [hBG] at h ⊢
+    exact kernel_of_rank_le _ _ lam h (by simpa using hrk)
+  exact mds_exact_recovery_of_hrank X δ hδ V lam s h.toIsEigSystem hrank hs
 
 /-! ### Optimality (Eckart–Young) -/
 
@@ -354,9 +396,65 @@ theorem ex_range : ∀ x : Fin 4 → Rat, (Mat.toM exV)ᵀ *ᵥ x = 0 → Mat.to
     rw [Finset.mul_sum]; exact Finset.sum_congr rfl fun j _ => by ring]
   rw [h0, mul_zero]
 
-/-- the instance goes through `mds_exact_recovery`: the embedding `(1,1,−1,−1)` reproduces every distance -/
+theorem ex_rank : (Mat.toM (centred exX)).rank ≤ 1 := by
+  simpa using Matrix.rank_le_width (Mat.toM (centred exX))
+
+/-- the instance goes through `mds_exact_recovery` (data-side rank hypothesis) and through the kernel form: the embedding
+    `(1,1,−1,−1)` reproduces every distance -/
 example : ∀ i j, rowSqDist (post exV exS) i j = exδ i j * exδ i j :=
-  mds_exact_recovery exX exδ ex_euclidean exV exLam exS ex_isTopEig.toIsEigSystem ex_range ex_sqrt
+  mds_exact_recovery exX exδ ex_euclidean ex_rank exV exLam exS ex_isTopEig ex_sqrt
+
+example : ∀ i j, rowSqDist (post exV exS) i j = exδ i j * exδ i j :=
+  mds_exact_recovery_of_hrank exX exδ ex_euclidean exV exLam exS ex_isTopEig.toIsEigSystem ex_range ex_sqrt
+
+/-- the instance meets the hypotheses of `randomized_exact_on_low_rank`: `Q = v` (one column), range sample exact
+    (`Q Qᵀ A = A` because `A = 4·v vᵀ`), small problem `Qᵀ A Q = [4]` with eigensystem `W = [1]`, `lam = 4` -/
+example : IsEigSystem (Mat.toM (upperView (mdsPre exδ))) (Mat.toM exV * (1 : Matrix (Fin 1) (Fin 1) Rat)) exLam := by
+  have hQ : (Mat.toM exV)ᵀ * Mat.toM exV = 1 := ex_isTopEig.ortho
+  have h1 : ∀ i j, Mat.mul (Mat.mul exV (Mat.transpose exV)) (upperView (mdsPre exδ)) i j
+      = upperView (mdsPre exδ) i j := by decide +kernel
+  have h2 : ∀ a b, Mat.mul (Mat.mul (Mat.transpose exV) (upperView (mdsPre exδ))) exV a b
+      = Mat.diag exLam a b := by decide +kernel
+  have hrange : Mat.toM exV * (Mat.toM exV)ᵀ * Mat.toM (upperView (mdsPre exδ)) = Mat.toM (upperView (mdsPre exδ)) := by
+    rw [← Mat.transpose_eq, ← Mat.mul_eq, ← Mat.mul_eq]
+    ext i j; exact h1 i j
+  have hsmall : (Mat.toM exV)ᵀ * Mat.toM (upperView (mdsPre exδ)) * Mat.toM exV = diagonal exLam := by
+    rw [← Mat.transpose_eq, ← Mat.mul_eq, ← Mat.mul_eq, ← Mat.diag_eq]
+    ext a b; exact h2 a b
+  exact (randomized_exact_on_low_rank (mdsPre exδ) (Mat.toM exV) 1 exLam hQ hrange
+    ⟨by rw [hsmall, Matrix.mul_one, Matrix.one_mul], by simp⟩).1
+
+/-- a concrete instance of `isomap_full_k_eq_mds`: two samples at distance 1, each the other's only neighbour (`k = N − 1 = 1`) -/
+def exP : Dijkstra.Problem Rat := { N := 2, nbrs := #[#[1], #[0]], w := fun a b => if a = b then 0 else 1 }
+
+theorem exP_nonneg : ∀ a b, 0 ≤ exP.w a b := by
+  intro a b; simp only [exP]; split_ifs <;> norm_num
+
+theorem exP_metric : Dijkstra.Metric exP := by
+  refine ⟨fun i => by simp [exP], fun i j l => ?_⟩
+  simp only [exP]
+  split_ifs <;> first | (exfalso; omega) | norm_num
+
+theorem exP_wf : Dijkstra.WF exP 1 := by
+  intro u hu i hi
+  have hi0 : i = 0 := by omega
+  subst hi0
+  have hu' : u = 0 ∨ u = 1 := by simp only [exP] at hu; omega
+  rcases hu' with rfl | rfl
+  · exact ⟨1, rfl, by decide⟩
+  · exact ⟨0, rfl, by decide⟩
+
+theorem exP_full : ∀ s v, s < exP.N → v < exP.N → s ≠ v → Dijkstra.Edge exP 1 s v := by
+  intro s v hs hv hsv
+  have hs' : s = 0 ∨ s = 1 := by simp only [exP] at hs; omega
+  have hv' : v = 0 ∨ v = 1 := by simp only [exP] at hv; omega
+  refine ⟨hs, hv, 0, by omega, ?_⟩
+  rcases hs' with rfl | rfl <;> rcases hv' with rfl | rfl <;> first | exact absurd rfl hsv | rfl
+
+example (disc : Dijkstra.Disc) (ch : Nat → Nat → Nat) :
+    ∃ G : Mat exP.N exP.N Rat, isomapPreOfGeodesics G = mdsPre (fun i j : Fin exP.N => exP.w i.1 j.1) := by
+  obtain ⟨r, G, hr, hG⟩ := isomap_full_k_rows_exist exP_wf exP_nonneg exP_full disc ch
+  exact ⟨G, isomap_full_k_eq_mds exP_nonneg exP_metric (fun a b => by simp [exP, eq_comm]) exP_full r hr G hG⟩
 
 /-- … and through `mds_optimal` against a competitor (`Q = e₁`, `mu = 3`) -/
 example : frobSq (Mat.toM (mdsPre exδ) - Mat.toM (post exV exS) * (Mat.toM (post exV exS))ᵀ)
